@@ -790,6 +790,58 @@ def exec_stdio_history(ctx, case: Dict[str, Any]) -> None:
                sample={"case": case, "outcome": kind})
 
 
+def exec_stream_fault(ctx, case: Dict[str, Any]) -> None:
+    """The caller's streams fail: the request cannot be written, or the read stream ends / breaks while waiting.
+    Whatever the call does then, it must not return a result and must not outlive its deadline."""
+    import anyio
+    from chuk_mcp.protocol.messages.send_message import send_message
+    from vf.props.c03 import FaultySend
+    fault = case["fault"]
+
+    async def main():
+        pipe = Pipe()
+        loop = asyncio.get_running_loop()
+        write = FaultySend(pipe.write, 1, fault.split(":")[1]) if fault.startswith("write:") else pipe.write
+
+        async def server():
+            try:
+                await pipe.srv_recv.receive()
+            except Exception:
+                return
+            await vsleep_until(case["t"])
+            if fault == "read:end":
+                await pipe.srv_send.aclose()
+            elif fault == "read:end_after_distractor":
+                pipe.srv_send.send_nowait(_build(_wire("notification", 0, 1), "parse"))
+                await pipe.srv_send.aclose()
+        st = asyncio.create_task(server(), name="server")
+        t0 = loop.time()
+        try:
+            out = ("return", await send_message(pipe.read, write, "tools/call", {"a": 1}, timeout=TIMEOUT))
+        except BaseException as e:  # noqa
+            if isinstance(e, (KeyboardInterrupt, SystemExit)):
+                raise
+            out = ("raise", e)
+        dur = loop.time() - t0
+        st.cancel()
+        return out, dur
+
+    try:
+        (out, dur), _ = run_virtual(main, max_iterations=50_000)
+    except HangDetected as e:
+        ctx.violation("hang", f"stream fault {fault}: {e}", case)
+        ctx.record(case, shape="hang")
+        return
+    ctx.count("stream_fault_calls")
+    if out[0] == "return":
+        ctx.violation("returned_without_response", f"stream fault {fault}: the call returned {out[1]!r} although no response "
+                      f"ever arrived", case)
+    if dur > TIMEOUT + EPS:
+        ctx.violation("deadline_overrun", f"stream fault {fault}: the call ended after {dur}s (timeout {TIMEOUT})", case)
+    ctx.record(case, shape=[out[0], type(out[1]).__name__], nontrivial=True, cls=f"stream_fault:{fault}",
+               sample={"case": case, "outcome": [out[0], type(out[1]).__name__], "duration": dur})
+
+
 def stdio_histories(ctx):
     mixes = [["notification"], ["other_response", "notification", "other_request"], ["same_id_request", "progress", "other_error"],
              ["int_twin", "notification"]]
@@ -802,6 +854,11 @@ def stdio_histories(ctx):
 
 
 def run(ctx):
+    for fault in ("write:broken", "write:closed", "write:oserror", "read:end", "read:end_after_distractor"):
+        for t in (0.0, 0.3, 0.5, TIMEOUT - 0.01):
+            case = {"via": "stream_fault", "fault": fault, "t": t}
+            if ctx.mine():
+                exec_stream_fault(ctx, case)
     for case in stdio_histories(ctx):
         if ctx.mine():
             exec_stdio_history(ctx, case)
@@ -831,6 +888,9 @@ def run(ctx):
 
 
 def replay(ctx, case):
+    if case.get("via") == "stream_fault":
+        exec_stream_fault(ctx, case)
+        return
     if case.get("via") == "stdio":
         exec_stdio_history(ctx, case)
         return
